@@ -29,6 +29,12 @@ subset leaves the function out and the translator exits non-zero).  What is adde
     on a byte array CREATED in the same call (`bytearray(n)`, or the result of a property that returns such a fresh
     array): value semantics are sound there; `x += …` on a name bound to the content of a slot is rejected (it would
     change the object the slot holds).
+  * (structures, W7c) data-class construction with DEFAULTS (`VersionInfo()`, `field(default_factory=C)` = `C()` built on the
+    spot, inherited fields in data-class order); a default that does not fold (`SOFTWARE_VERSION`, computed from the
+    installed package's version) is a PARAMETER `k_<NAME>` of the translated function; struct formats with several fields
+    and byte strings (`PyT.struct_pack_into_s` / `struct_unpack_from_s`), `pack_into(buf, off, a, *it, b)`, tuple targets
+    of more than five names, `text.split(".", k)`, `sep.join(…)`, `map(int | str, …)` consumed on the spot,
+    `self.<slot>.<attribute>` for a slot annotated with a class of the repository (`self.frame.sender`).
 """
 import ast
 import os
@@ -51,6 +57,10 @@ FR = "pyplumio/frames/__init__.py"
 FRAME_METHODS = ["__init__", "new", "message", "message.setter", "data", "data.setter", "length", "__len__", "header", "bytes"]
 for _m in FRAME_METHODS:
     TARGETS.append((FR, f"Frame.{_m}"))
+PV = "pyplumio/structures/program_version.py"
+NI = "pyplumio/structures/network_info.py"
+TARGETS += [(PV, "ProgramVersionStructure.encode"), (PV, "ProgramVersionStructure.decode"),
+            (NI, "NetworkInfoStructure.encode"), (NI, "NetworkInfoStructure.decode")]
 TABLES = [(DT, "DATA_TYPES")]
 
 B.EXCEPTIONS.setdefault("AttributeError", "AttributeError")
@@ -115,6 +125,11 @@ class TTranslator(B.Translator):
     def __init__(self, repo_root):
         super().__init__(repo_root)
         self.tables = {}
+
+    def is_ext_name(self, mod, name, module):
+        """`name` is imported from the external module `module` (`from dataclasses import field`)"""
+        r = self.repo.resolve(mod, name)
+        return bool(r and r[0] == "ext" and r[1] == module and r[2] == name)
 
     # ------------------------------------------------------------------ classes
     def class_of(self, mod, name):
@@ -283,11 +298,14 @@ class TTranslator(B.Translator):
         info["needs_fuel"] = fn.needs_fuel
         info["mutates"] = fn.mutates
         info["busy"] = False
-        sig = (" (env : PyT.Env)" if info["env"] else "") + ("" if kind == "classmethod" else " (v_self : V)") + \
-            "".join(f" (v_{p} : V)" for p in params)
+        info["kparams"] = list(fn.kparams)
+        sig = (" (env : PyT.Env)" if info["env"] else "") + "".join(f" (k_{p} : V)" for p in info["kparams"]) + \
+            ("" if kind == "classmethod" else " (v_self : V)") + "".join(f" (v_{p} : V)" for p in params)
         fuel = " (fuel : Nat)" if info["needs_fuel"] else ""
         ret = "PyM V" if kind == "classmethod" else "PyM (V × V)"
         dflt = ("; defaults: " + ", ".join(f"{k}={show_default(v)}" for k, v in defaults.items())) if defaults else ""
+        if info["kparams"]:
+            dflt += "; module constants that do not fold are parameters: " + ", ".join(info["kparams"])
         head = [f"/-- `{dmod.rel}`: `{dcls.name}.{name}` (line {node.lineno}) as seen from class `{cls.name}`"
                 f" ({kind}){dflt} -/",
                 f"def {lname}{fuel}{sig} : {ret} := do"]
@@ -342,7 +360,7 @@ class TTranslator(B.Translator):
     # ------------------------------------------------------------------ output
     def emit(self):
         out = ["-- GENERATED by tools/py2lean_types.py from the repository's current source text. Do not edit.",
-               "import PlumVerif.Model.PyPreludeTypes",
+               "import PlumVerif.Model.PyPreludeNet",
                "set_option linter.unusedVariables false",
                "namespace PlumVerif.PyCodeTypes",
                "open PlumVerif.Py",
@@ -372,7 +390,7 @@ class TTranslator(B.Translator):
             info = self.funcs[key]
             if info["is_async"]:
                 continue
-            n = len(info["params"]) + (1 if info["has_self"] else 0)
+            n = len(info["params"]) + (1 if info["has_self"] else 0) + len(info.get("kparams", []))
             pat = "[" + ", ".join(f"a{i}" for i in range(n)) + "]"
             app = info["lean"] + (" fuel" if info["needs_fuel"] else "") + (" PyT.testEnv" if info.get("env") else "") + \
                 "".join(f" a{i}" for i in range(n))
@@ -397,6 +415,7 @@ class MTranslator(B.FnTranslator):
         self.concrete = info.get("concrete")
         self.fresh_bufs = set()   # locals bound to a bytearray created in this call (mutation cannot be seen elsewhere)
         self.alias_names = set()  # locals bound to the content of a slot / the result of a property (may alias a slot)
+        self.kparams = []         # module constants that do not fold: parameters of the translated function
         if self.kind in ("method", "property", "setter"):
             self.bound.add("self")
             self.vclass["self"] = self.concrete
@@ -496,6 +515,18 @@ class MTranslator(B.FnTranslator):
             return None
         if isinstance(n, ast.Attribute):
             c = self.ctype(n.value)
+            if c and self.tr.class_kind(c[1]) == "class" and n.attr in self.tr.slots(*c):
+                # a slot annotated with a class of the repository (`frame: Frame` of the structures' mixin)
+                for m, k in self.tr.mro(*c):
+                    for st in k.body:
+                        if isinstance(st, ast.AnnAssign) and isinstance(st.target, ast.Name) and st.target.id == n.attr:
+                            saved = self.mod
+                            self.mod = m
+                            try:
+                                return self.ann_class(st.annotation)
+                            finally:
+                                self.mod = saved
+                return None
             if c and self.tr.class_kind(c[1]) == "dataclass":
                 for m, k in self.tr.mro(*c):
                     for st in k.body:
@@ -578,6 +609,8 @@ class MTranslator(B.FnTranslator):
         return lines, t
 
     def env_arg(self, info):
+        if info.get("kparams"):
+            raise Unsupported(f"{self.mod.rel} in {self.info['qual']}: call of {info['qual']}, which has constant parameters")
         if not info.get("env"):
             return ""
         if not self.info.get("env"):
@@ -658,6 +691,25 @@ class MTranslator(B.FnTranslator):
         f = n.func
         if awaited:
             return super().call(n, awaited)
+        if isinstance(f, ast.Name) and f.id == "map" and f.id not in self.bound and self.tr.repo.resolve(self.mod, "map") is None \
+                and len(n.args) == 2 and not n.keywords and isinstance(n.args[0], ast.Name) and n.args[0].id in ("int", "str") \
+                and n.args[0].id not in self.bound and self.tr.repo.resolve(self.mod, n.args[0].id) is None:
+            # map(int, xs) / map(str, xs): accepted only where it is consumed on the spot (star-argument, join)
+            if getattr(self, "map_ok", None) != id(n):
+                self.fail(n, "map(...) other than as a star-argument / the argument of join (lazy iterator)")
+            lines, a = self.expr(n.args[1])
+            return lines, self.bind(lines, f"PyT.map_{n.args[0].id} {a}")
+        if isinstance(f, ast.Attribute) and f.attr == "join" and isinstance(f.value, ast.Constant) and isinstance(f.value.value, str) \
+                and len(n.args) == 1 and not n.keywords:
+            if isinstance(n.args[0], ast.Call):
+                self.map_ok = id(n.args[0])
+            lines, a = self.expr(n.args[0])
+            return lines, self.bind(lines, f"PyT.str_join {lean_value(f.value.value)} {a}")
+        if isinstance(f, ast.Attribute) and f.attr == "split" and len(n.args) == 2 and not n.keywords \
+                and isinstance(n.args[0], ast.Constant) and isinstance(n.args[0].value, str) \
+                and isinstance(n.args[1], ast.Constant) and isinstance(n.args[1].value, int):
+            lines, a = self.expr(f.value)
+            return lines, self.bind(lines, f"PyT.str_split {a} {lean_value(n.args[0].value)} {lean_value(n.args[1].value)}")
         if isinstance(f, ast.Name) and f.id not in self.bound:
             if f.id == "cls" and self.kind == "classmethod":
                 return self.construct(n, self.concrete)
@@ -697,7 +749,8 @@ class MTranslator(B.FnTranslator):
                     return lines, self.bind(lines, f"PyT.struct_pack {lean_str(st.fmt)} {a}")
                 if f.attr == "unpack_from" and len(n.args) == 1 and not n.keywords:
                     lines, a = self.expr(n.args[0])
-                    return lines, self.bind(lines, f"PyT.struct_unpack_from {lean_str(st.fmt)} {a}")
+                    prim = "struct_unpack_from" if len(st.fmt) == 2 else "struct_unpack_from_s"   # one field / several, byte strings
+                    return lines, self.bind(lines, f"PyT.{prim} {lean_str(st.fmt)} {a}")
                 self.fail(n, f"struct method .{f.attr} / argument form")
             # socket.*
             if isinstance(f.value, ast.Name) and f.value.id not in self.bound and self.tr.is_ext(self.mod, f.value.id, "socket"):
@@ -739,6 +792,56 @@ class MTranslator(B.FnTranslator):
                 lines += l2
                 return lines, self.bind(lines, f"PyT.bytes_split1 {a} {b}")
         return super().call(n, awaited)
+
+    def class_call(self, n, m, cls):
+        if self.tr.class_kind(cls) != "dataclass":
+            return super().class_call(n, m, cls)
+        fields = self.tr.dataclass_fields(m, cls)
+        names = [k for k, _, _ in fields]
+        if any(isinstance(a, ast.Starred) for a in n.args) or any(k.arg is None for k in n.keywords):
+            self.fail(n, f"{cls.name}(...): star-arguments")
+        if len(n.args) > len(names):
+            self.fail(n, "too many arguments")
+        lines, atoms = self.seq(n.args)
+        given = dict(zip(names, atoms))
+        for k in n.keywords:
+            if k.arg not in names or k.arg in given:
+                self.fail(n, f"keyword argument {k.arg}")
+            l, a = self.expr(k.value)
+            lines += l
+            given[k.arg] = a
+        for k, fm, dflt in fields:
+            if k in given:
+                continue
+            if dflt is None:
+                self.fail(n, f"{cls.name}(...): field {k} has no default and is not given")
+            given[k] = self.default_atom(n, lines, fm, dflt)
+        return lines, f"({self.P('mkobj')} {lean_str(cls.name)} [" + ", ".join(f"({lean_str(k)}, {given[k]})" for k in names) + "])"
+
+    def default_atom(self, n, lines, fm, dflt):
+        """the default of a data-class field: folded; `field(default_factory=C)` = C() built here; a module constant that
+        does not fold = a parameter of the translated function"""
+        if isinstance(dflt, ast.Call) and isinstance(dflt.func, ast.Name) and dflt.func.id == "field" \
+                and self.tr.is_ext_name(fm, "field", "dataclasses"):
+            if dflt.args or len(dflt.keywords) != 1 or dflt.keywords[0].arg != "default_factory" \
+                    or not isinstance(dflt.keywords[0].value, ast.Name):
+                self.fail(n, "field(...) other than field(default_factory=<data class>)")
+            c = self.tr.class_of(fm, dflt.keywords[0].value.id)
+            if not c or self.tr.class_kind(c[1]) != "dataclass":
+                self.fail(n, "default_factory that is not a data class of the repository")
+            l, a = self.class_call(ast.Call(func=dflt.keywords[0].value, args=[], keywords=[], lineno=n.lineno), c[0], c[1])
+            lines += l
+            return a
+        try:
+            return lean_value(self.tr.fold(fm, dflt))
+        except Unsupported:
+            if isinstance(dflt, ast.Name):
+                r = self.tr.repo.resolve(fm, dflt.id)
+                if r and r[0] == "def" and not isinstance(r[2], (ast.FunctionDef, ast.AsyncFunctionDef, ast.ClassDef)):
+                    if dflt.id not in self.kparams:
+                        self.kparams.append(dflt.id)
+                    return "k_" + dflt.id
+            self.fail(n, "a field default that neither folds nor is a module constant")
 
     def args_for(self, n, info):
         """positional / keyword arguments of a call matched against the parameters (defaults folded)"""
@@ -810,13 +913,34 @@ class MTranslator(B.FnTranslator):
             stf = self.struct_of(f.value)
             if stf is not None and f.attr == "pack_into":
                 if v.keywords or len(v.args) < 2 or not (isinstance(v.args[0], ast.Name) and v.args[0].id in self.fresh_bufs) \
-                        or any(isinstance(a, ast.Starred) for a in v.args) or self.nested:
+                        or any(isinstance(a, ast.Starred) for a in v.args[:2]) or self.nested:
                     self.fail(st, "pack_into argument form (a byte array created in this call, offset, fields)")
                 out.append("-- " + self.src(st))
-                lines, atoms = self.seq(v.args[1:])
-                out += lines
                 name = v.args[0].id
-                out.append(f"let v_{name} ← PyT.struct_pack_into {lean_str(stf.fmt)} v_{name} {atoms[0]} [{', '.join(atoms[1:])}]")
+                if not any(isinstance(a, ast.Starred) for a in v.args) and "s" not in stf.fmt:
+                    lines, atoms = self.seq(v.args[1:])
+                    out += lines
+                    out.append(f"let v_{name} ← PyT.struct_pack_into {lean_str(stf.fmt)} v_{name} {atoms[0]} [{', '.join(atoms[1:])}]")
+                    return False
+                # several kinds of fields / star-arguments: the argument list is built left to right, a starred iterable is
+                # consumed at its place
+                lines, off = self.expr(v.args[1])
+                out += lines
+                parts = []
+                for a in v.args[2:]:
+                    if isinstance(a, ast.Starred):
+                        if isinstance(a.value, ast.Call):
+                            self.map_ok = id(a.value)
+                        lines, x = self.expr(a.value)
+                        out += lines
+                        t = self.fresh()
+                        out.append(f"let {t} ← PyT.items {x}")
+                        parts.append(t)
+                    else:
+                        lines, x = self.expr(a)
+                        out += lines
+                        parts.append(f"[{x}]")
+                out.append(f"let v_{name} ← PyT.struct_pack_into_s {lean_str(stf.fmt)} v_{name} {off} ({' ++ '.join(parts) if parts else '[]'})")
                 return False
         return super().stmt(st, rest, k, out)
 
@@ -848,6 +972,16 @@ class MTranslator(B.FnTranslator):
                     self.mutates = True
                 return
             self.fail(st, "attribute assignment on something other than self / an object local")
+        if isinstance(st, ast.Assign) and isinstance(target, ast.Tuple) and len(target.elts) > 5 \
+                and all(isinstance(e, ast.Name) for e in target.elts) and not any(e.id in self.vclass for e in target.elts):
+            lines, a = self.expr(value)
+            out += lines
+            t = self.fresh()
+            out.append(f"let {t} ← PyT.unpack_list {len(target.elts)} {a}")
+            for i, e in enumerate(target.elts):
+                out.append(f"let v_{e.id} := PyT.nth {t} {i}")
+                self.bound.add(e.id)
+            return
         if isinstance(st, (ast.Assign, ast.AnnAssign)) and isinstance(target, ast.Name) and value is not None:
             if isinstance(value, ast.Name) and value.id in self.vclass:
                 self.fail(st, f"`{target.id} = {value.id}`: a second name for an object (aliasing is outside the subset)")
